@@ -99,10 +99,11 @@ def threshold : Nat := 700        -- MaxGossipPacketSize / 2
 def queueCap : Nat := 200         -- cap(msgc)
 
 structure Chan where
-  key     : String
-  gossip  : List Part := []        -- handed to `send` (memberlist's TransmitLimitedQueue)
-  queue   : List Part := []        -- waiting in msgc for the reliable per-peer send
-  dropped : Nat := 0               -- oversize_gossip_message_dropped_total
+  key      : String
+  gossip   : List Part := []        -- handed to `send` (memberlist's TransmitLimitedQueue)
+  queue    : List Part := []        -- buffered in msgc for the reliable per-peer send
+  inflight : Option Part := none    -- taken from msgc by handleOverSizedMessages, sends not finished
+  dropped  : Nat := 0               -- oversize_gossip_message_dropped_total
   deriving Repr
 
 /-- `Channel.Broadcast`; `size` = encoded length of the wrapped Part (oracle). -/
@@ -113,10 +114,14 @@ def broadcast (c : Chan) (data : Payload) (size : Nat) : Chan :=
     else { c with dropped := c.dropped + 1 }
   else { c with gossip := c.gossip ++ [p] }
 
-/-- `handleOverSizedMessages` takes the head of the queue and sends it to each peer once -/
-def drainOne (c : Chan) (peers : List String) : Chan × List (String × Part) :=
-  match c.queue with
-  | [] => (c, [])
-  | p :: rest => ({ c with queue := rest }, peers.map fun n => (n, p))
+/-- `handleOverSizedMessages` receives the head of msgc (when it is not busy) and starts one
+    reliable send per current peer; returns the sends started. -/
+def take (c : Chan) (peers : List String) : Chan × List (String × Part) :=
+  match c.inflight, c.queue with
+  | none, p :: rest => ({ c with queue := rest, inflight := some p }, peers.map fun n => (n, p))
+  | _, _ => (c, [])
+
+/-- all sends of the message in flight have returned (`wg.Wait()`) -/
+def finish (c : Chan) : Chan := { c with inflight := none }
 
 end AM.Gossip
